@@ -170,6 +170,14 @@ FromStabOK == Rec.op = "fromstab" =>
     /\ (~anti) => /\ Has("post") /\ TOK(Rec.post)
                   /\ TGrp(Rec.post) = Span(ops, n)
                   /\ Rec.post.r = n - Len(ops)
+\* wide registers (N > 64): the tableau invariant itself (it implies independence and -1 \notin group; the group is
+\* too large to enumerate), rank untouched by a unitary circuit
+WideCircOK == (Rec.op = "widecirc" /\ ~Has("exc")) =>
+    /\ \A j \in 1..Len(Rec.wpost.rows) : WellFormed(Rec.wpost.rows[j], Len(Rec.wpost.rows[j]) - 1)
+    /\ TableauOK(TRows(Rec.wpost), Rec.wpost.r) /\ Rec.wpost.r = Rec.wpre.r
+\* ... and (model drift) every row is the image of the corresponding row under the program
+Drift_WideCirc == (Rec.op = "widecirc" /\ ~Has("exc")) =>
+    \A j \in 1..Len(Rec.wpre.rows) : Dec(Rec.wpost.rows[j]) = Forward(DecProg(Rec.prog), Dec(Rec.wpre.rows[j]))
 \* L2 conformance (model drift, never a verdict): the transcribed projection of Tableau.tla gives the recorded tableau bit for bit
 Drift_FromStab == (Rec.op = "fromstab" /\ Has("post") /\ Rec.pkg = "py") =>
     LET ops == DecL(Rec.stabs)
